@@ -8,12 +8,15 @@ import PhyVerif.Model.C18p
 import PhyVerif.Spec.C18p
 import PhyVerif.Lemmas.C18t
 import PhyVerif.Lemmas.C18p
+import PhyVerif.Lemmas.C18j
 /-!
 # C18 — JSON, TSV/CSV and parameter-file serialisation round-trips values and types
 Only property theorems + non-vacuity examples; proofs in `Lemmas/C18.lean`.
 (`json`, `base64` and float `repr` are transport.  The `csv` module, the text layer, `int()`/`float()`,
 `'%.nf'` and the fragment of Python's parser that parameter files need are modelled in
-`Model/C18c.lean`, `Model/C18p.lean` and tied to the real code by the correspondence run.)
+`Model/C18c.lean`, `Model/C18p.lean` and tied to the real code by the correspondence run.  The TEXT written
+for a str inside the JSON file - `ensure_ascii` escaping, the locale encoding of the file, the string
+scanner - is modelled in `Model/C18j.lean`.)
 -/
 namespace PhyVerif.C18
 
@@ -314,5 +317,55 @@ example : (writeTsv renderPy
       [[("cluster_id", .int 0), ("group", .text "good")], [("cluster_id", .int (-3))],
        [("group", .text "mua"), ("cluster_id", .int 12)]]) := by decide
 example : parsePy "12" = .int 12 ∧ parsePy "good" = .text "good" ∧ parsePy "-3" = .int (-3) := by decide
+
+/-! ### strings inside the JSON file: text, file encoding, scanner (`Model/C18j.lean`) -/
+
+/-- Whatever the code points of a str (controls, Latin-1, astral, LONE SURROGATES, even numbers that are
+not code points), the literal `save_json` writes for it is printable ASCII.  No hypothesis on `s`. -/
+theorem json_string_text_ascii (s : PyStr) : ∀ b ∈ strLiteral s, 32 ≤ b ∧ b ≤ 126 :=
+  Lemmas.strLiteral_ascii s
+
+/-- Hence the write cannot fail whatever encoding the locale gives the file (`path.open('w')` is text mode
+with the locale encoding and `errors='strict'`): the strict `'ascii'` codec encodes the literal to itself,
+and the `'utf-8'` codec - which refuses surrogates - accepts it. -/
+theorem json_string_encodable (s : PyStr) :
+    strictAscii (strLiteral s) = some (strLiteral s) ∧ strictUtf8Ok (strLiteral s) = true :=
+  ⟨Lemmas.strictAscii_literal s, Lemmas.strictUtf8_literal s⟩
+
+/-- Strings are preserved: scanning the text written for `s` (after the opening quote, up to the closing
+one, whatever follows it) returns exactly `s` and the text after the closing quote - for every str
+(`ValidStr`: code points up to U+10FFFF, lone surrogates included) in which no high surrogate is directly
+followed by a low surrogate (`NoJoin`).  At the excluded point the REAL code does not round-trip either:
+`save_json(p, {'k': '\ud83e\udde0'})` then `load_json(p)['k']` is the one character U+1F9E0 (the `json`
+library joins the pair; `json_string_joined_example`, compared with the real code by the harness). -/
+theorem json_string_roundtrip (s : PyStr) (rest : List Nat) (hv : ValidStr s) (hj : NoJoin s) :
+    scan (escapeStr s ++ 34 :: rest) = some (s, rest) :=
+  Lemmas.scan_escapeStr s rest hv hj
+
+/-- The same through a file whose encoding is ASCII (a process under `LC_ALL=C` without UTF-8 mode): write
+with the strict codec, read back, scan. -/
+theorem json_string_roundtrip_ascii_file (s : PyStr) (hv : ValidStr s) (hj : NoJoin s) :
+    strViaAsciiFile s = some (s, []) :=
+  Lemmas.strViaAsciiFile_eq s hv hj
+
+/-- what happens at the point `NoJoin` excludes: a high surrogate directly followed by a low one comes back
+as ONE astral character -/
+theorem json_string_joined_example :
+    escapeStr [55358, 56800] = escapeStr [129504] ∧ ¬ NoJoin [55358, 56800] ∧
+    scan (escapeStr [55358, 56800] ++ [34]) = some ([129504], []) :=
+  ⟨by decide, by decide, json_string_roundtrip [129504] [] (by decide) (by decide)⟩
+
+-- 'é', the undecodable byte 0xE9 of a file name (U+DCE9), an astral character, '"', a newline, DEL
+example : escapeStr [233, 56553, 129504, 34, 10, 127] =
+    [92, 117, 48, 48, 101, 57,  92, 117, 100, 99, 101, 57,  92, 117, 100, 56, 51, 101, 92, 117, 100, 100, 101, 48,
+     92, 34,  92, 110,  92, 117, 48, 48, 55, 102] := by decide
+example : ValidStr [114, 56553, 55358, 120, 56800, 1114111] ∧ NoJoin [114, 56553, 55358, 120, 56800, 1114111] := by decide
+example : scan (escapeStr [114, 56553, 55358, 120, 56800, 1114111] ++ [34, 10, 125]) =
+    some ([114, 56553, 55358, 120, 56800, 1114111], [10, 125]) :=
+  json_string_roundtrip _ _ (by decide) (by decide)
+-- a low surrogate FOLLOWED by a high one is fine
+example : NoJoin [56800, 55358] := by decide
+-- the strict codecs on raw (unescaped) text: what `ensure_ascii=False` would hand to the file
+example : strictAscii [34, 233, 34] = none ∧ strictUtf8Ok [34, 233, 34] = true ∧ strictUtf8Ok [34, 56553, 34] = false := by decide
 
 end PhyVerif.C18
